@@ -210,7 +210,17 @@ def hyp_run(rec, prop, strategy, n, seed, shrink=True, stateful_steps=None):
     @st
     @given(strategy)
     def t(case):
-        prop(case, rec)
+        try:
+            prop(case, rec)
+        except (Violation, HarnessError):
+            raise
+        except RecursionError:
+            raise
+        except Exception as e:
+            # a crash whose innermost relevant frame is repository code is a violation on this (sound) input
+            if crashed_in_repo(e):
+                raise Violation('crash:' + type(e).__name__, traceback.format_exc()[-1500:], case)
+            raise
 
     try:
         with contextlib.redirect_stdout(sys.stderr):
